@@ -525,14 +525,14 @@ def _collect_binding_information_from_comparison(
     assert comparison.atom.ast_type == ASTType.Comparison
     if comparison.sign != Sign.NoSign:
         return (set(), set(collect_ast(comparison.atom, "Variable")))
-    bound_variables: set[AST] = set(input_bound_variables)
+    # every occurrence of the anonymous variable is a variable of its own: one does not bind another
+    bound_variables: set[AST] = set(filter(lambda var: var.name != "_", input_bound_variables))
     unbound_variables: set[AST] = set(collect_ast(comparison, "Variable"))
     for lhs, operator, rhs in comparison2comparisonlist(comparison.atom):
         if operator == ComparisonOperator.Equal:
             bound, unbound = _collect_binding_information_from_equal(lhs, rhs, bound_variables)
             bound_variables.update(bound)
             unbound_variables.update(unbound)
-    # every occurrence of the anonymous variable is a variable of its own: one does not bind another
     bound_variables = set(filter(lambda var: var.name != "_", bound_variables))
     return bound_variables, unbound_variables - bound_variables
 
